@@ -77,9 +77,29 @@ class PlainPayload:
     chain: str | None = None
     deep: int = 0
     raises_late: tuple | None = None
+    nopickle: str | None = None
 
     def raises(self):
         return tuple(EXC[n] for n in self.raises_names)
+
+
+_IDENTITY = lambda x: x  # noqa: E731  a module-level lambda: pickle cannot find it by name
+
+
+class Opaque:
+    """An outcome that cannot cross a process boundary (it holds a callable pickle cannot name)."""
+
+    def __init__(self, v):
+        self.v = v
+        self.f = _IDENTITY
+
+    def __repr__(self):
+        return f"Opaque({self.v!r})"
+
+
+def _runtime_class(base):
+    """An exception class built at run time (by a plugin, a grammar, a factory): isinstance() works, pickle does not."""
+    return type(base.__name__, (base,), {"__module__": __name__})
 
 
 def _visual_payload_class():
@@ -97,6 +117,7 @@ def _visual_payload_class():
         chain: str | None = None
         deep: int = 0
         raises_late: tuple | None = None
+        nopickle: str | None = None
 
         def raises(self):
             return tuple(EXC[n] for n in self.raises_names)
@@ -119,8 +140,10 @@ def _recurse(d):
     return 0 if d <= 0 else 1 + _recurse(d - 1)
 
 
-def _raise(exc_name, exc_args, chain):
+def _raise(exc_name, exc_args, chain, runtime_class=False):
     """Raise the payload's exception, optionally chained the way wrapping code does (`raise X from low_level`)."""
+    if runtime_class:
+        raise _runtime_class(EXC[exc_name])(*exc_args)
     if chain:
         how, low = chain.split(":")
         if how == "cause":
@@ -153,8 +176,9 @@ def work(payload, *args, **kwargs):
     if late is not None:
         payload.raises_names = tuple(late)  # e.g. a pragma found in the input decides which errors are to be captured
     if payload.behave == "ok":
-        return payload.value if getattr(payload, "ret", None) == "raw" else [payload.value, list(args), sorted(kwargs.items())]
-    _raise(payload.exc, payload.exc_args, getattr(payload, "chain", None))
+        out = payload.value if getattr(payload, "ret", None) == "raw" else [payload.value, list(args), sorted(kwargs.items())]
+        return Opaque(out) if getattr(payload, "nopickle", None) else out
+    _raise(payload.exc, payload.exc_args, getattr(payload, "chain", None), runtime_class=bool(getattr(payload, "nopickle", None)))
 
 
 def pick_str(x):
@@ -228,6 +252,11 @@ def gen_spec(seed: int, config: str | None = None) -> dict:
                 p["raises"] = [rng.choice(CAPTURABLE)]
         if entry == "visual_legacy":
             p["raises"] = []
+        if rng.random() < 0.03 and entry != "visual_legacy":
+            # the outcome (or the captured exception) cannot be pickled: with a process pool the loop may raise a pickling
+            # error, but it must still not hand out anything twice or wrong
+            p["nopickle"] = "outcome" if p["behave"] == "ok" else "exception"
+            p.pop("chain", None)
         if p["behave"] == "raise" and p["raises"] and p["cls"] == "plain" and rng.random() < 0.2:
             # the declaration depends on state that the function changes before it fails (a pragma found in the input)
             p["raises_late"] = list(p["raises"])
@@ -294,6 +323,8 @@ def expected(spec: dict, p: dict):
     pick = PICKABLE[spec["pickable"]] or (lambda x: x)
     if p["behave"] == "ok":
         out = p["value"] if p.get("ret") == "raw" else [p["value"], list(spec["extra_args"]), sorted(spec["extra_kwargs"].items())]
+        if p.get("nopickle"):
+            out = Opaque(out)
         return canon(pick(out)), None
     return canon(pick(None)), [p["exc"] if False else EXC[p["exc"]].__name__, canon(tuple(p["exc_args"]))]
 
@@ -325,7 +356,7 @@ def build_payloads(spec: dict):
         text = f"line {p['key']}\n// c\n\n"
         kw = dict(key=p["key"], behave=p["behave"], value=p["value"], exc=p["exc"],
                   exc_args=tuple(p["exc_args"]), raises_names=tuple(p["raises"]), ret=p.get("ret", "wrapped"), chain=p.get("chain"), deep=p.get("deep", 0),
-                  raises_late=None if p.get("raises_late") is None else tuple(p["raises_late"]))
+                  raises_late=None if p.get("raises_late") is None else tuple(p["raises_late"]), nopickle=p.get("nopickle"))
         if p["cls"] == "visual":
             out.append(VisPayload(path=path, payload=text, **kw))
         else:
@@ -610,6 +641,8 @@ def run(spec: dict, decider: Decider, keep_events: bool = False) -> RunResult:
                 seq_raised = e
         truth = {p["key"]: expected(spec, p) for p in spec["payloads"]}
         covered = {p["key"] for p in spec["payloads"] if is_captured(spec, p)}
+        # a result the (simulated) worker could not pickle: the statement is silent about whether the loop then raises
+        covered -= set(env.pickle_failed_keys)
         all_covered = len(covered) == n
         # content of whatever was yielded (both configurations)
         for key, out, exc in got:
@@ -715,6 +748,10 @@ def shrink_candidates(spec: dict):
             s = copy.deepcopy(spec)
             s["payloads"][i]["value"] = 0
             yield s
+        if p.get("nopickle"):
+            s = copy.deepcopy(spec)
+            s["payloads"][i].pop("nopickle")
+            yield s
         if p.get("ret") == "raw":
             s = copy.deepcopy(spec)
             s["payloads"][i].pop("ret")
@@ -799,17 +836,27 @@ def real_pool_run(spec: dict):
     """Run the spec through the *real* ProcessPoolExecutor (nothing patched).  Schedule-independent oracle."""
     from tatsu.parproc.result import Result
 
+    import pickle
+
     payloads = build_payloads(spec)
     got = []
-    for r in call_entry(spec, payloads, True, []):
-        if isinstance(r, Result):
-            got.append(observe(r))
-            if len(got) > len(payloads) + 1:
-                return f"more results than payloads: {len(got)} for {len(payloads)} (stopped consuming)"
+    gave_up = False
+    try:
+        for r in call_entry(spec, payloads, True, []):
+            if isinstance(r, Result):
+                got.append(observe(r))
+                if len(got) > len(payloads) + 1:
+                    return f"more results than payloads: {len(got)} for {len(payloads)} (stopped consuming)"
+    except (pickle.PickleError, AttributeError, TypeError):
+        if not any(p.get("nopickle") for p in spec["payloads"]):
+            raise
+        gave_up = True  # a result that cannot be pickled: the loop may raise; what it yielded must still be right
     truth = {p["key"]: expected(spec, p) for p in spec["payloads"]}
     keys = [g[0] for g in got]
     if len(set(keys)) != len(keys):
         return f"duplicate keys {sorted(keys)}"
+    if gave_up:
+        truth = {k: v for k, v in truth.items() if k in keys}
     if sorted(keys) != sorted(truth):
         return f"keys {sorted(keys)} expected {sorted(truth)}"
     for key, out, exc in got:
